@@ -23,7 +23,7 @@ def check_fixed(cx, rep):
         f = impl_method(cx.facts, EVAL, adt(path), 'evaluate')
         if f is None:
             continue
-        inst = f['path']
+        inst = inst_of(f)
         file, line = fn_loc(f)
 
         def go():
@@ -84,7 +84,7 @@ def check_polyn(cx, rep):
     if f is None:
         rep.finding('floor', 'horner', 'no Evaluate impl for poly::PolyN')
         return
-    inst = f['path']
+    inst = inst_of(f)
     file, line = fn_loc(f)
 
     def go():
@@ -172,7 +172,7 @@ def check_log(cx, rep):
     if f is None:
         rep.finding('floor', 'log', 'no Evaluate impl for log_poly::Log<T>')
         return
-    inst = f['path']
+    inst = inst_of(f)
     file, line = fn_loc(f)
 
     def go():
